@@ -596,12 +596,9 @@ macs = %s
 
     @staticmethod
     def _normalize_error_field(field: List[str]) -> Any:
-        '''If field is an array with a string parsable as an integer, return that integer.  Otherwise, return the field joined with commas.'''
+        '''If field is an array with a single entry, return that entry as given (a value such as '007' or '+10' must not be re-formatted as an integer, otherwise the expected and actual values shown for a mismatch could look the same).  Otherwise, return the field joined with commas.'''
         if len(field) == 1:
-            try:
-                return int(field[0])
-            except ValueError:
-                return field[0]
+            return field[0]
         else:
             return ', '.join(field)
 
